@@ -997,7 +997,7 @@ func (x *Ctx) straddle(cb func(s []byte, have, want rune)) {
 // U+10000, U+10FFFF, U+20820) make the stray copy indistinguishable from the real byte
 func (x *Ctx) strayTails(cb func(s []byte, r rune)) {
 	rs := []rune{'é', 'Á', 'я', 'ß', 0x80, 0x7ff, 0x800, '世', '鄄', 0x2000, 0x2028, 0xFFFF, 0xFFFD, 'K', 'ẞ', 'ⱥ',
-		'😀', 0x10000, 0x10FFFF, 0x20820, 0x1F640, 0xE0041, 0x10428}
+		'😀', 0x10000, 0x10FFFF, 0x20820, 0x1F640, 0xE0041, 0x10428, 0x1F61F, 0x1D11D, 0x2A6AA, 0x1F91F}
 	n := 0
 	for _, r := range rs {
 		e := []byte(string(r))
@@ -1037,6 +1037,23 @@ func (x *Ctx) strayTails(cb func(s []byte, r rune)) {
 				} {
 					cb(hs, r)
 					n++
+				}
+			}
+		}
+		// decoys of OTHER widths that end in the code point's last byte (a two-byte and a three-byte one), exactly as
+		// many as it takes a last-byte scan to give up (the cut-over counts depend on the offset: 3 .. 8, and 20), then
+		// the complete code point once and twice — with code points whose encoding repeats a byte at distance two
+		// (U+1F61F f0 9f 98 9f, U+1D11D, U+2A6AA) the scan's false hit can be the code point's own second byte
+		if w > 1 {
+			last := e[w-1]
+			for _, dec := range [][]byte{{0xC3, last}, {0xE4, 0xB8, last}} {
+				for _, k := range []int{3, 4, 5, 6, 7, 8, 20} {
+					hs := bytes.Repeat(dec, k)
+					hs = append(hs, e...)
+					cb(hs, r)
+					cb(append(append([]byte{}, hs...), e...), r)
+					cb(append([]byte("x"), hs...), r)
+					n += 3
 				}
 			}
 		}
